@@ -31,6 +31,8 @@ ASSUMPTIONS = ['neighbourhoods Bc are 0/1 arrays (median rank = Bc.sum()//2 coun
                'EVERY pixel, overflowing or not, is in addition compared with the model in the wrap-around arithmetic of the '
                'dtype (= exact value mod 2^bits, C07_template_match_wrapping); float dtypes: small integer values (exact), '
                'out-of-range pixels skipped',
+               'rank/median on float images: quarter-integers, or (enc=bits) ANY non-NaN float incl. denormals and +-inf but not '
+               '-0.0, passed to the integer model through the order embedding sign(x)*bits(|x|) (C07_rank_order_embedding); '
                'kinds rank/median/mean/tm: float images hold integer-valued (or quarter-integer, rank filters only) samples: '
                'exact arithmetic, no NaN; kinds tmf/meanf: finite dyadic float values, judged bit for bit against the generic '
                'kernel run in binary64/binary32 and against the exact rational value within the proved forward error bound '
@@ -47,9 +49,31 @@ EXPLANATION = ('model = transliteration of rank_filter/mean_filter/template_matc
                'binary64/binary32 (Lean Float/Float32 = the hardware operations); majority_filter loops and closed form')
 
 
+_FINF = {'float32': 0x7F800000, 'float64': 0x7FF0000000000000}      # bit pattern of +inf: every |e| <= this is a non-NaN float
+
+
+def _fbits_decode(es, dtype):
+    """order embedding of the non-NaN floats into the integers, e = sign(x) * bits(|x|) (strictly increasing, 0 <-> +0.0;
+    -0.0 is not produced); the rank filter commutes with it (C07_rank_order_embedding)"""
+    ut = np.uint32 if dtype == 'float32' else np.uint64
+    mag = np.array([abs(int(e)) for e in es], dtype=ut).view(np.dtype(dtype))
+    neg = np.array([int(e) < 0 for e in es], dtype=bool)
+    return np.where(neg, -mag, mag).astype(np.dtype(dtype))
+
+
+def _fbits_encode(a):
+    a = np.ascontiguousarray(a)
+    ut = np.uint32 if a.dtype == np.float32 else np.uint64
+    bits = np.abs(a).view(ut).ravel().tolist()
+    neg = (np.signbit(a) & (a != 0)).ravel().tolist()
+    return [-int(b) if n else int(b) for b, n in zip(bits, neg)]
+
+
 def _arr(case):
     a = np.array(case['data'], dtype=object)
     dt = np.dtype(case['dtype'])
+    if case.get('enc') == 'bits':
+        return _fbits_decode(case['data'], case['dtype']).reshape(case['shape'])
     if dt.kind == 'f':
         a = (np.array(case['data'], dtype=np.float64) / case.get('scale', 1)).astype(dt)
     else:
@@ -129,8 +153,13 @@ def _judge(case, got, drv):
     sc = case.get('scale', 1)
     isf = np.dtype(case['dtype']).kind == 'f'
     if k in ('rank', 'median'):
-        g = got.ravel(order='C').tolist()
-        g = [int(round(x * sc)) if isf else int(x) for x in g]
+        if case.get('enc') == 'bits':
+            if np.isnan(got).any():
+                return [dict(kind='property', key=f'{k}:nan', detail={})]
+            g = _fbits_encode(np.asarray(got).reshape(-1))
+        else:
+            g = got.ravel(order='C').tolist()
+            g = [int(round(x * sc)) if isf else int(x) for x in g]
         spec, model = _opt(drv['spec']), _opt(drv['model'])
         bad = [i for i, (a, b) in enumerate(zip(g, spec)) if b is not None and a != b]
         if bad:
@@ -309,6 +338,10 @@ def evaluate(cases):
                     elem=('larger' if any(b > s for b, s in zip(bs, sh)) else 'even' if any(b % 2 == 0 for b in bs) else 'odd'))
         if case.get('size'):
             tags['size_threshold'] = case['size']
+        if case.get('enc'):
+            tags['float_values'] = 'any-bit-pattern'
+        elif case['kind'] in ('rank', 'median') and np.dtype(case['dtype']).kind == 'f':
+            tags['float_values'] = 'quarter-integers'
         if case['kind'] == 'find':
             tags['find'] = case.get('tag', 'random')
         if case.get('_undefined'):
@@ -356,6 +389,19 @@ def _data(rng, n, dtype, small=False):
         lo, hi = gen.dt_range(dtype)
         return [rng.randint(max(lo, -2), min(hi, 3)) for _ in range(n)]
     return [int(x) for x in gen.rand_int_array(rng, (n,), dtype).tolist()]
+
+
+def _fbits_data(rng, n, dtype):
+    """arbitrary non-NaN floats as embedded integers: palettes with ties (zero, denormals, 1, 1+ulp, max, +-inf) or uniform
+    over all bit patterns"""
+    inf = _FINF[dtype]
+    one = 0x3F800000 if dtype == 'float32' else 0x3FF0000000000000
+    minn = 0x00800000 if dtype == 'float32' else 0x0010000000000000
+    pal = [0, 1, -1, minn - 1, minn, -minn, one, one + 1, -one, -(one + 1), inf - 1, -(inf - 1), inf, -inf, rng.randint(-inf, inf)]
+    if rng.random() < 0.5:
+        pal = rng.sample(pal, rng.randint(2, 6))
+        return [rng.choice(pal) for _ in range(n)]
+    return [rng.choice(pal) if rng.random() < 0.3 else rng.randint(-inf, inf) for _ in range(n)]
 
 
 def _bc(rng, shape):
@@ -513,15 +559,20 @@ def cases(rng, tier):
         if r < 0.30:
             bshape, bc = _bc(rng, shape)
             n2 = sum(bc)
-            out.append(dict(kind='rank', dtype=dtype, shape=shape, data=_data(rng, n, dtype), bshape=bshape, bc=bc,
-                            rank=rng.choice([0, n2 - 1, n2 // 2, rng.randrange(n2)]), mode=mode, layout=layout,
-                            blayout=rng.choice(['C', 'C', 'F', 'strided']), scale=rng.choice([1, 4]) if isf else 1))
+            c = dict(kind='rank', dtype=dtype, shape=shape, data=_data(rng, n, dtype), bshape=bshape, bc=bc,
+                     rank=rng.choice([0, n2 - 1, n2 // 2, rng.randrange(n2)]), mode=mode, layout=layout,
+                     blayout=rng.choice(['C', 'C', 'F', 'strided']), scale=rng.choice([1, 4]) if isf else 1)
+            if isf and rng.random() < 0.45:
+                c.update(enc='bits', scale=1, data=_fbits_data(rng, n, dtype))
+            out.append(c)
         elif r < 0.42:
             bshape, bc = _bc(rng, shape)
             c = dict(kind='median', dtype=dtype, shape=shape, data=_data(rng, n, dtype), bshape=bshape, bc=bc, mode=mode,
                      layout=layout, scale=rng.choice([1, 4]) if isf else 1)
             if rng.random() < 0.3:
                 c.update(default_bc=True, bshape=[3] * len(shape), bc=[1] * (3 ** len(shape)))
+            if isf and rng.random() < 0.45:
+                c.update(enc='bits', scale=1, data=_fbits_data(rng, n, dtype))
             out.append(c)
         elif r < 0.55:
             bshape, bc = _bc(rng, shape)
